@@ -11,7 +11,7 @@ import (
 
 func init() {
 	register("C03", propMeta{
-		Explanation: "E-GUARD + E-PROV + E-CONST. O-1 pool selection: AddSnowflake pushes to the heap loaded from field 'snowflakes' exactly on the natType == NATUnrestricted edge (else restrictedSnowflakes); the poll-timeout branch removes from the heap chosen by the same mapping on the same NAT value (sibling agreement); matchSnowflake pops from restrictedSnowflakes exactly on the client-NAT == NATUnrestricted edge, else from snowflakes (the complement). O-2 NAT vocabulary: the NAT constants of broker, common/nat and proxy/lib are equal, and both decoders accept exactly {\"\", unknown, restricted, unrestricted}, map \"\" to unknown, and reject everything else with an error. O-3 refusal only when the eligible pool is empty: matchSnowflake returns nil only through the false edge of Len() > 0 on the selected heap, test and pop in one critical section; ClientOffers answers 'no proxies' only when matchSnowflake returned nil. O-4 load order: Less compares the clients counts of its two arguments with strict <, clients never changes while queued, Swap/Push/Pop maintain index. Every clause is necessary: e.g. swapping the heaps in one branch gives a restricted client a restricted proxy. Added after the second seeding round: O-4 also requires that Push/Pop/Swap of SnowflakeHeap have no static caller (container/heap only); O-6 the legacy client format takes its NAT type from Header.Get(\"Snowflake-NAT-Type\") and hands it to the shared handler; O-7/C04 the deregistration obligations of C04 (a proxy leaves the pool it was put in on exactly the unclaimed edge). Added after the third seeding round: the guarded-by rows of the matching state are evaluated here too (O-6/C03); the goroutine started per poll captures only per-iteration variables (language version of go.mod taken into account); the NAT vocabulary may be a constant lookup table (keys = vocabulary, values = mapping) instead of comparisons. Added after the fourth seeding round: Less may consult any other criterion only behind the edge on which the two client counts are equal; Swap is judged by which element ends up in which slot, not by the spelling of the exchange. Added after the fifth seeding round: O-5b isRestrictedMapping compares address and port of the two mapped addresses (their String(), or IP and Port).",
+		Explanation: "E-GUARD + E-PROV + E-CONST. O-1 pool selection: AddSnowflake pushes to the heap loaded from field 'snowflakes' exactly on the natType == NATUnrestricted edge (else restrictedSnowflakes); the poll-timeout branch removes from the heap chosen by the same mapping on the same NAT value (sibling agreement); matchSnowflake pops from restrictedSnowflakes exactly on the client-NAT == NATUnrestricted edge, else from snowflakes (the complement). O-2 NAT vocabulary: the NAT constants of broker, common/nat and proxy/lib are equal, and both decoders accept exactly {\"\", unknown, restricted, unrestricted}, map \"\" to unknown, and reject everything else with an error. O-3 refusal only when the eligible pool is empty: matchSnowflake returns nil only through the false edge of Len() > 0 on the selected heap, test and pop in one critical section; ClientOffers answers 'no proxies' only when matchSnowflake returned nil. O-4 load order: Less compares the clients counts of its two arguments with strict <, clients never changes while queued, Swap/Push/Pop maintain index. Every clause is necessary: e.g. swapping the heaps in one branch gives a restricted client a restricted proxy. Added after the second seeding round: O-4 also requires that Push/Pop/Swap of SnowflakeHeap have no static caller (container/heap only); O-6 the legacy client format takes its NAT type from Header.Get(\"Snowflake-NAT-Type\") and hands it to the shared handler; O-7/C04 the deregistration obligations of C04 (a proxy leaves the pool it was put in on exactly the unclaimed edge). Added after the third seeding round: the guarded-by rows of the matching state are evaluated here too (O-6/C03); the goroutine started per poll captures only per-iteration variables (language version of go.mod taken into account); the NAT vocabulary may be a constant lookup table (keys = vocabulary, values = mapping) instead of comparisons. Added after the fourth seeding round: Less may consult any other criterion only behind the edge on which the two client counts are equal; Swap is judged by which element ends up in which slot, not by the spelling of the exchange. Added after the fifth seeding round: O-5b isRestrictedMapping compares address and port of the two mapped addresses (their String(), or IP and Port). Added after the sixth seeding round and the mutation audit: the chain decoded poll -> RequestOffer -> ProxyPoll -> AddSnowflake -> Snowflake is checked for id, proxyType, natType and clients alike; every path through AddSnowflake pushes the snowflake; O-5c the two mapped addresses are decoded from one round trip each, one to PrimaryAddr and one to OtherAddr.",
 		NotDecided:  "correctness of container/heap, fairness between simultaneous clients, the outcome of arbitrary concurrent histories beyond 'each client pops the current minimum of its eligible pool under the lock'.",
 		Assumptions: []string{"container/heap maintains the heap order given a correct heap.Interface"},
 	}, runC03)
@@ -147,6 +147,39 @@ func runC03(c *Ctx) {
 		}
 	}
 	c.count("heap operation sites", nSites)
+	// every registration ends up in one of the pools: no path through AddSnowflake avoids heap.Push
+	if add := p.Fn("broker", "(*BrokerContext).AddSnowflake"); add != nil {
+		pushBlocks := map[*ssa.BasicBlock]bool{}
+		for _, ci := range callsTo(add, "container/heap.Push") {
+			pushBlocks[ci.Block()] = true
+		}
+		var leak *ssa.Return
+		seen := map[*ssa.BasicBlock]bool{}
+		var walk func(b *ssa.BasicBlock)
+		walk = func(b *ssa.BasicBlock) {
+			if seen[b] || pushBlocks[b] || leak != nil {
+				return
+			}
+			seen[b] = true
+			if len(b.Instrs) > 0 {
+				if r, ok := b.Instrs[len(b.Instrs)-1].(*ssa.Return); ok {
+					leak = r
+					return
+				}
+			}
+			for _, sb := range b.Succs {
+				walk(sb)
+			}
+		}
+		if len(add.Blocks) > 0 {
+			walk(add.Blocks[0])
+		}
+		if leak != nil {
+			c.viol(rule1, "AddSnowflake queues the snowflake on every path", p.instrPos(leak), "a return of AddSnowflake is reachable without heap.Push: a proxy of that NAT type is registered (and waits for its poll to time out) but can never be matched")
+		} else {
+			c.ok(rule1, "AddSnowflake queues the snowflake on every path", p.Pos(add.Pos()), fmt.Sprintf("%d push site(s)", len(pushBlocks)))
+		}
+	}
 	// the NAT value compared at the timeout branch is the one the snowflake was registered with
 	if loop := p.Fn("broker", "(*BrokerContext).Broker"); loop != nil {
 		add := p.Fn("broker", "(*BrokerContext).AddSnowflake")
@@ -800,42 +833,10 @@ func (c *Ctx) checkHeapShape() {
 		}
 	}
 	c.checkGuardRows(rule, rows, p.FnsIn("broker"))
-	// clients comes from the decoded poll
-	if add := p.Fn("broker", "(*BrokerContext).AddSnowflake"); add != nil && len(add.Params) >= 5 {
-		okC := false
-		for _, s := range storesToField([]*ssa.Function{add}, p.Field("broker", "Snowflake", "clients")) {
-			if s.Val == ssa.Value(add.Params[4]) {
-				okC = true
-			}
-		}
-		c.check(okC, rule, "AddSnowflake stores its clients argument as the heap key", p.Pos(add.Pos()), "", "the heap key is not the proxy's reported client count")
-	}
-	// and the argument chain: ProxyPolls -> RequestOffer -> ProxyPoll.clients -> AddSnowflake
-	ro := p.Fn("broker", "(*BrokerContext).RequestOffer")
-	if ro != nil && len(ro.Params) >= 5 {
-		okR := false
-		for _, s := range storesToField([]*ssa.Function{ro}, p.Field("broker", "ProxyPoll", "clients")) {
-			if s.Val == ssa.Value(ro.Params[4]) {
-				okR = true
-			}
-		}
-		c.check(okR, rule, "RequestOffer records the poll's clients argument", p.Pos(ro.Pos()), "", "the client count of the poll is dropped before registration: every proxy is queued with the same load")
-	}
-	if pp := p.Fn("broker", "(*IPC).ProxyPolls"); pp != nil && ro != nil {
-		for _, ci := range callsIn(pp) {
-			if staticCallee(ci) == ro {
-				c.check(isResultOf(ci.Common().Args[4], 3, "common/messages.DecodeProxyPollRequestWithRelayPrefix"), rule, "ProxyPolls passes the decoded Clients to RequestOffer", p.instrPos(ci), "", "the decoded client count is not what is registered")
-			}
-		}
-	}
-	if loop := p.Fn("broker", "(*BrokerContext).Broker"); loop != nil {
-		for _, ci := range callsIn(loop) {
-			if f := staticCallee(ci); f != nil && f.Name() == "AddSnowflake" {
-				_, fl, ok := fieldLoad(ci.Common().Args[4])
-				c.check(ok && fl.Name() == "clients", rule, "Broker registers the snowflake with request.clients", p.instrPos(ci), "", "AddSnowflake is not given the poll's client count")
-			}
-		}
-	}
+	// what the poll reported is what gets registered: decoded poll -> RequestOffer -> ProxyPoll field -> AddSnowflake
+	// (-> Snowflake field), for the NAT type (selects the pool) and the client count (the heap key); the id and the
+	// proxy type travel the same way and are checked with them
+	c.checkPollAttributeChain(rule)
 }
 
 // checkHeapMethodsPrivate: Push, Pop and Swap of a heap.Interface type have no
@@ -1056,6 +1057,48 @@ func (c *Ctx) checkMappingTest() {
 		return
 	}
 	c.analysedFn(p.FnName(fn))
+	// the two mapped addresses are answers to requests sent to two different destinations: each
+	// XOR-MAPPED-ADDRESS is decoded from the response of exactly one round trip, one to the server's primary address
+	// and one to its other address (two answers from one destination always agree, whatever the NAT does)
+	{
+		ruleD := "O-5c the two mappings are measured against two destinations"
+		dests := map[string]int{}
+		nGet, okAll := 0, true
+		why := ""
+		for _, ci := range callsIn(fn) {
+			if !strings.HasSuffix(calleeName(ci), "XORMappedAddress).GetFrom") || len(ci.Common().Args) < 2 {
+				continue
+			}
+			nGet++
+			resp := strip(ci.Common().Args[1])
+			rc, idx, isRes := callResult1(resp)
+			if !isRes || idx != 0 || !strings.HasSuffix(calleeName(rc), ".RoundTrip") {
+				okAll = false
+				why = "the response decoded at " + p.instrPos(ci) + " is not the result of one round trip (it merges several, a retry for example)"
+				continue
+			}
+			dst := ""
+			if len(rc.Call.Args) >= 3 {
+				if _, f, ok := fieldLoad(rc.Call.Args[2]); ok {
+					dst = f.Name()
+				}
+			}
+			if dst == "" {
+				okAll = false
+				why = "the destination of the round trip at " + p.instrPos(rc) + " is not an address field of the test connection"
+			}
+			dests[dst]++
+		}
+		if nGet == 0 {
+			c.undecided(ruleD, "isRestrictedMapping decodes two mapped addresses", p.Pos(fn.Pos()), "no XORMappedAddress.GetFrom call found")
+		} else {
+			if okAll && !(nGet == 2 && dests["PrimaryAddr"] == 1 && dests["OtherAddr"] == 1) {
+				okAll = false
+				why = fmt.Sprintf("the mapped addresses come from round trips to %v", dests)
+			}
+			c.check(okAll, ruleD, "one mapping from the primary address, one from the other address", p.Pos(fn.Pos()), "", why+": when both answers can come from the same destination they are equal behind any NAT, and an address-dependent NAT is reported as unrestricted - the broker then serves that client from the restricted pool")
+		}
+	}
 	n := 0
 	for _, r := range returnsOf(fn) {
 		if len(r.Results) != 2 || !retMayBeNil(r, 1) {
@@ -1119,5 +1162,77 @@ func (c *Ctx) checkMappingTest() {
 	}
 	if n == 0 {
 		c.undecided(rule, "isRestrictedMapping verdict", p.Pos(fn.Pos()), "no success return found")
+	}
+}
+
+// checkPollAttributeChain: each attribute of a proxy poll reaches the registration unchanged.
+func (c *Ctx) checkPollAttributeChain(rule string) {
+	p := c.P
+	ro := p.Fn("broker", "(*BrokerContext).RequestOffer")
+	add := p.Fn("broker", "(*BrokerContext).AddSnowflake")
+	pp := p.Fn("broker", "(*IPC).ProxyPolls")
+	loop := p.Fn("broker", "(*BrokerContext).Broker")
+	if ro == nil || add == nil || pp == nil || loop == nil || len(ro.Params) < 5 || len(add.Params) < 5 {
+		c.undecided(rule, "poll attribute chain", "-", "RequestOffer/AddSnowflake/ProxyPolls/Broker: anchor does not resolve or has another parameter list")
+		return
+	}
+	attrs := []struct {
+		name      string
+		decodeIdx int
+		param     int    // index into Params of RequestOffer and of AddSnowflake (receiver is 0)
+		sfField   string // field of Snowflake that records it ("" if none)
+		why       string
+	}{
+		{"id", 0, 1, "id", "the proxy is registered under another id than the one it polls and answers with"},
+		{"proxyType", 1, 2, "proxyType", "the proxy type of the poll is lost before registration"},
+		{"natType", 2, 3, "natType", "the NAT type of the poll is lost before registration: the proxy is queued in the pool of another NAT type (and counted under another in the gauges)"},
+		{"clients", 3, 4, "clients", "the client count of the poll is dropped before registration: every proxy is queued with the same load"},
+	}
+	for _, a := range attrs {
+		// (a) ProxyPolls -> RequestOffer
+		n := 0
+		for _, ci := range callsIn(pp) {
+			if staticCallee(ci) == ro && len(ci.Common().Args) > a.param {
+				n++
+				c.check(isResultOf(ci.Common().Args[a.param], a.decodeIdx, "common/messages.DecodeProxyPollRequestWithRelayPrefix"), rule, "ProxyPolls passes the decoded "+a.name+" to RequestOffer", p.instrPos(ci), "", "argument "+a.name+" is not the decoded value: "+a.why)
+			}
+		}
+		if n == 0 {
+			c.undecided(rule, "ProxyPolls passes the decoded "+a.name+" to RequestOffer", p.Pos(pp.Pos()), "no call of RequestOffer in ProxyPolls")
+		}
+		// (b) RequestOffer -> ProxyPoll field
+		okR := false
+		if f := p.Field("broker", "ProxyPoll", a.name); f != nil {
+			for _, s := range storesToField([]*ssa.Function{ro}, f) {
+				if strip(s.Val) == ssa.Value(ro.Params[a.param]) {
+					okR = true
+				}
+			}
+		}
+		c.check(okR, rule, "RequestOffer records the poll's "+a.name+" argument", p.Pos(ro.Pos()), "", a.why)
+		// (c) Broker -> AddSnowflake
+		n = 0
+		for _, ci := range callsIn(loop) {
+			if staticCallee(ci) == add && len(ci.Common().Args) > a.param {
+				n++
+				_, fl, ok := fieldLoad(ci.Common().Args[a.param])
+				c.check(ok && fl.Name() == a.name, rule, "Broker registers the snowflake with request."+a.name, p.instrPos(ci), "", "AddSnowflake is not given the poll's "+a.name+": "+a.why)
+			}
+		}
+		if n == 0 {
+			c.undecided(rule, "Broker registers the snowflake with request."+a.name, p.Pos(loop.Pos()), "no call of AddSnowflake in Broker")
+		}
+		// (d) AddSnowflake -> Snowflake field
+		if a.sfField != "" {
+			okC := false
+			if f := p.Field("broker", "Snowflake", a.sfField); f != nil {
+				for _, s := range storesToField([]*ssa.Function{add}, f) {
+					if strip(s.Val) == ssa.Value(add.Params[a.param]) {
+						okC = true
+					}
+				}
+			}
+			c.check(okC, rule, "AddSnowflake stores its "+a.name+" argument in the snowflake", p.Pos(add.Pos()), "", a.why)
+		}
 	}
 }
